@@ -475,6 +475,31 @@ func paillierSuite(c *Ctx) {
 			}
 		}
 		c.Emit("validate_nil", J{"key": k.J()}, Guard(func() interface{} { return J{"ok": k.sk.ValidateCiphertexts(nil)} }))
+		// batches (the protocols validate several ciphertexts in one call): valid exactly when EVERY member is, whatever its position
+		for bi := 0; bi < len(cands) && bi < 23+budget; bi++ {
+			x := cands[bi]
+			good1, good2 := plRndBelow(c, k.N2), plBi(1)
+			var batch []*big.Int
+			switch bi % 4 {
+			case 0:
+				batch = []*big.Int{x, good1}
+			case 1:
+				batch = []*big.Int{good1, x}
+			case 2:
+				batch = []*big.Int{x, good1, good2}
+			default:
+				batch = []*big.Int{good2, x, good1}
+			}
+			mode := modes[bi%2]
+			cts := make([]*paillier.Ciphertext, len(batch))
+			hexes := make([]string, len(batch))
+			for i, b := range batch {
+				cts[i] = plCtOf(c, b)
+				hexes[i] = bighex(b)
+			}
+			c.Emit("validate_batch", J{"key": k.J(), "cs": hexes, "mode": mode},
+				Guard(func() interface{} { return J{"ok": k.pkFor(mode).ValidateCiphertexts(cts...)} }))
+		}
 
 		// ---- arith.Modulus.Exp / ExpI: CRT against plain, both against the model
 		for _, sq := range []bool{false, true} {
